@@ -480,7 +480,10 @@ func init() {
 		o := histOpts{maxUnits: 7, maxStmts: 2, maxRows: 2, maxCols: 6, maxTables: 2, files: true, ignorable: true, allowTZ: false, casing: false}
 		for i := 0; i < n; i++ {
 			h := genHistory(r, o, allCfgs[i%len(allCfgs)])
-			ans, err := theDriver.Ask(h.line(posStr(firstFile, 4)))
+			if i%3 == 0 {
+				h.empty = true // the replica was started at ("", 4): the master serves its first file, labels carry the empty name until a ROTATE
+			}
+			ans, err := theDriver.Ask(h.line(posStr(h.startFile(), 4)))
 			if err != nil {
 				continue
 			}
